@@ -27,21 +27,32 @@ pub struct ExecOut {
 
 /// Execute one request to completion under the simulator.
 pub fn run_request(label: &str, flavour: Flavour, n_ext: usize, query: &str, params: Option<Params>) -> ExecOut {
+    run_request_with(label, flavour, n_ext, query, None, None, params)
+}
+
+/// Same, with an operation name and variables.
+pub fn run_request_with(label: &str, flavour: Flavour, n_ext: usize, query: &str, operation_name: Option<&str>, variables: Option<J>, params: Option<Params>) -> ExecOut {
     begin_world_exec();
     sim::begin_exec(label);
     match params {
         Some(p) => sim::set_params(p),
         None => {}
     }
-    let q = query.to_string();
+    let mut req = Request::new(query.to_string());
+    if let Some(op) = operation_name {
+        req = req.operation_name(op);
+    }
+    if let Some(v) = variables {
+        req = req.variables(async_graphql::Variables::from_json(v));
+    }
     let (_, slot) = match flavour {
         Flavour::Static => {
             let schema = world::static_schema(n_ext);
-            sim::spawn_slot("request", async move { ser(schema.execute(Request::new(q)).await) })
+            sim::spawn_slot("request", async move { ser(schema.execute(req).await) })
         }
         Flavour::Dynamic => {
             let schema = world::dynamic_schema(n_ext);
-            sim::spawn_slot("request", async move { ser(schema.execute(Request::new(q)).await) })
+            sim::spawn_slot("request", async move { ser(schema.execute(req).await) })
         }
     };
     let end = sim::run(100_000);
